@@ -175,9 +175,12 @@ def drive(kind, client, units, single, reset, chunks):
     rec = RecDecoder(decoder(client))
     fr = framer_cls(kind)(rec)
     obs = []
+    stale = False
     for ch in chunks:
         dels = []
         ex = None
+        if kind == "bin":
+            stale = stale or bin_stale_start(bytes(fr._buffer) + bytes(ch))
         try:
             fr.processIncomingPacket(bytes(ch), lambda m: dels.append((m._verif_pdu, int(m.unit_id))),
                                      list(units), single=single)
@@ -187,12 +190,29 @@ def drive(kind, client, units, single, reset, chunks):
                 fr.resetFrame()
         obs.append((dels, ex, bytes(fr._buffer), canon_hdr(kind, fr._header)))
     return {"kind": kind, "client": client, "units": list(units), "single": single, "reset": reset,
-            "dec": sorted(rec.log.items()), "chunks": [bytes(c) for c in chunks], "obs": obs}
+            "dec": sorted(rec.log.items()), "chunks": [bytes(c) for c in chunks], "obs": obs, "stale": stale}
+
+
+def bin_stale_start(buf):
+    """binary framer: would checkFrame be evaluated on a buffer that has bytes before its first '{'?
+    (then its local `start` is stale and the CRC is taken over a span shifted by `start` bytes) —
+    computed from the input bytes only"""
+    while len(buf) > 1:
+        s = buf.find(b"{")
+        if s == -1:
+            return False
+        if s > 0:
+            return True
+        e = buf.find(b"}")
+        if e == -1:
+            return False
+        buf = buf[e + 2:]
+    return False
 
 
 def run_desc(run, **extra):
     d = {"kind": run["kind"], "client": run["client"], "units": run["units"], "single": run["single"],
-         "reset": run["reset"], "chunks": [c.hex() for c in run["chunks"]],
+         "reset": run["reset"], "stale": run.get("stale", False), "chunks": [c.hex() for c in run["chunks"]],
          "impl": [[[(p.hex(), u) for p, u in o[0]], o[1], len(o[2])] for o in run["obs"]]}
     d.update(extra)
     return d
@@ -598,6 +618,16 @@ def suite_c07(tier):
                 else:
                     for i in r.sample(list(tailbits), 6 if quick else 24) + r.sample(range(nbits), 4 if quick else 16):
                         emit_multi(flip(p, [i]), "mflip1")
+                if kind == "bin":
+                    for sh in ((1, 2, 3) if idx == 0 else (1,)):
+                        for ins in ([bytes([x]) * sh for x in (f[2], nb_[2], 0x11)] + [bytes(r.randrange(256) for _ in range(sh))]):
+                            g = bytes(r.choice([0, 0xff, r.randrange(256)]) for _ in range(sh)).replace(b"{", b"z").replace(b"}", b"z")
+                            for reads in ([g + b"{" + ins + p[1:]], [g, b"{" + ins + p[1:]], [g + b"{" + ins + p[1:] , nbv]):
+                                cases.append(c07_case(kind, client, sorted(set(units) | {0x11}), reads, "noise+insert", [p, nbv]))
+                    for _ in range(4 if quick else 20):   # plain noise in front of an intact / bit-flipped frame, same read
+                        g = bytes(r.randrange(256) for _ in range(r.choice([1, 2, 5]))).replace(b"{", b"z")
+                        cases.append(c07_case(kind, client, units, [g + p], "noise+valid", [p, nbv]))
+                        cases.append(c07_case(kind, client, units, [g + flip(p, [r.randrange(8, nbits - 8)])], "noise+flip1", [p, nbv]))
                 emit_multi(p[:-1], "mtruncate")
                 emit_multi(p + bytes([r.randrange(256)]), "mextend")
                 # every single-bit flip
@@ -814,11 +844,12 @@ FINDING_OF = {
     ("C06", "one-per-call"): "F-C06-rtu-one-frame-per-call", ("C06", "mei"): "F-C06-rtu-mei-partial-raises",
     ("C06", "size"): "F-C06-rtu-size-oracle", ("C06", "pdu"): "F-C06-rtubin-pdu-not-decodable",
     ("C06", "advance-skip"): "F-C06-binary-advance-skips-byte", ("C11", "advance-skip"): "F-C11-binary-several-per-read",
+    ("C07", "stale-start"): "F-C07-binary-stale-start",
     ("C11", "several-per-read"): "F-C11-rtu-backlog-several-per-read", ("C11", "fifo-size"): "F-C11-rtu-fifo-size",
     ("C11", "undecodable-deaf"): "F-C11-rtubin-undecodable-frame-deaf", ("C11", "short-brace"): "F-C11-binary-short-brace-deaf",
 }
 ORDER = ["escaping", "size", "pdu", "mei", "one-per-call", "incomplete-reset", "advance-skip", "several-per-read", "fifo-size",
-         "undecodable-deaf", "short-brace"]
+         "undecodable-deaf", "short-brace", "stale-start"]
 
 
 def regions_for(pid, suite, desc):
@@ -837,6 +868,8 @@ def regions_for(pid, suite, desc):
         return c06_regions(desc)
     if suite == "b_c11":
         return c11_regions(desc)
+    if suite == "b_c07":
+        return {"stale-start"} if desc["kind"] == "bin" and desc.get("stale") else set()
     return set()
 
 
